@@ -30,10 +30,12 @@ ASSUME \A t \in PlainNum : \A d \in Divs(t) :
          Need(Has(t, 0, d, 0, 1, DomOf(t)) /\ (WithJson /\ d = 0 => Has(t, 0, d, 1, 1, DomOf(t) \cup Sampled)), <<"num", t, d>>)
 ASSUME \A t \in {x \in TypeIds : Types[x].k = "bits"} :
          \A n \in (IF Types[t].bits = 1 THEN {0} ELSE 0..Types[t].bits) : Need(Both(t, n, 0, {"all8"}), <<"bits", t, n>>)
+(* calendar coverage does not depend on the tier: every day 2000-2099 of every date type (the registered duplicates *)
+(* BDA:4/HDA:4 may be thinned in the quick tier), every DAY value, every day of DTM's range                          *)
 ASSUME \A t \in {x \in TypeIds : Types[x].k = "date"} :
-         Need(Has(t, 0, 0, 0, 1, IF Thorough THEN {"days"} ELSE {"days", "somedays"}) /\ Has(t, 0, 0, 0, 1, {"bnd"}), <<"date", t>>)
-ASSUME Need(Has("BDA", 0, 0, 0, 1, {"days"}), "century")
-ASSUME Need(Has("DAY", 0, 0, 0, 1, Dom16) /\ Has("DTM", 0, 0, 0, 1, IF Thorough THEN {"dtm"} ELSE {"dtm", "dtmq"}), "day/dtm")
+         Need(Has(t, 0, 0, 0, 1, IF Thorough \/ t \notin {"BDA:4", "HDA:4"} THEN {"days"} ELSE {"days", "somedays"})
+              /\ Has(t, 0, 0, 0, 1, {"bnd"}), <<"date", t>>)
+ASSUME Need(Has("DAY", 0, 0, 0, 1, {"all16"}) /\ Has("DTM", 0, 0, 0, 1, {"dtm"}), "day/dtm")
 ASSUME \A t \in {"BTM", "HTM", "VTM"} : Need(Both(t, 0, 0, Dom16), <<"time", t>>)
 ASSUME Need(Both("MIN", 0, 0, IF Thorough THEN {"all16"} ELSE {"all16", "min"}), "MIN")
 ASSUME \A t \in {"TTM", "TTH", "TTQ"} : Need(Both(t, 0, 0, {"all8"}), <<"time", t>>)
